@@ -54,14 +54,28 @@ def find_witness(unit_res, failed, workdir, repo):
         states, note = freezer_search(workdir, repo)
         if not states:
             return None
-        # open_index obligations are witnessed by the "first index write cut short" state, everything else by a data-file state
-        want_first = failed['name'].startswith('C09.open_index') or (failed.get('function') or '').endswith('open_index')
+        fn = failed.get('function') or ''
+        seq_states = [st for st in states if 'sequence' in st]
+        crash_states = [st for st in states if 'sequence' not in st]
+        # same-session obligations (append / Head::write / write_index / get_bounds / retrieve / truncate) are witnessed by an
+        # operation sequence, re-open obligations (build / open_index) by a crash state
+        if not (fn.endswith('fn build') or fn.endswith('fn open_index')):
+            if not seq_states:
+                return None
+            pick = seq_states[0]
+            return {'kind': 'freezer-crash-state', 'state': pick, 'search_note': note,
+                    'replay_args': ['replay-seq', pick['sequence'], str(pick['item_len']), str(pick['max_file'])],
+                    'meaning': "operation sequence run on the real FreezerFiles in one temp directory and checked against a Vec model: A append next item, F/M/L retrieve first/middle/last item, T truncate keeping all but the last item, O drop and re-open; then everything is read back, before and after a final re-open"}
+        if not crash_states:
+            return None
+        # open_index obligations are witnessed by the "first index write cut short" state, build's by a data-file state
+        want_first = failed['name'].startswith('C09.open_index') or fn.endswith('open_index')
         pick = None
-        for st in states:
+        for st in crash_states:
             if (st['n_items'] == 0) == want_first:
                 pick = st
         if pick is None:
-            pick = states[0]
+            pick = crash_states[0]
         return {'kind': 'freezer-crash-state', 'state': pick, 'search_note': note,
                 'replay_args': ['replay', str(pick['n_items']), str(pick['item_len']), str(pick['max_file']), str(pick['index_len']),
                                 str(pick['head_file_id']), str(pick['head_len'])],
